@@ -23,8 +23,10 @@ BUDGET = {"quick": 70, "thorough": 1400}
 BATCH_TIMEOUT = {"quick": 300, "thorough": 1800}
 RULE = (
     "(a) per configuration (RSA/P-256/Ed25519 server key x client-certificate request x PSK resumption) one fresh "
-    "back-to-back TLS handshake per (message, byte position, mask in {01,80,FF}; thorough: all single-bit masks + FF), every "
-    "position of every message except NewSessionTicket; non-trivial = the altered message was delivered and the receiver's "
+    "back-to-back TLS handshake per alteration of every message except NewSessionTicket: byte XOR (quick: every 3rd byte + field "
+    "boundaries x {01,80,FF}; header/length bytes x every value-decreasing mask, x all 255 where they delimit verify_data/"
+    "signature/binder; thorough: every byte x 9 masks, header/length bytes x 255), multi-byte length fields set to smaller "
+    "values, verify_data/signature/binder resized to every shorter length (+1,+16) with enclosing lengths fixed up; non-trivial = the altered message was delivered and the receiver's "
     "fate classified; distinct = (config, message, field, outcome class). (b) hostile-server cases x 5 key types, distinct = "
     "(case, key type, rejection reason). (c) seeded samples of key type x suite lists x version lists/original version x ALPN "
     "lists x fresh/resumed/0-RTT x retry x client-cert request x loss/reorder fates; non-trivial = outcome decided by the "
